@@ -167,6 +167,13 @@ Definition t_listen_c : tmpl :=
        ++ e2 (RNew 3) (RNew 2) ++ [(RNew 4, RNew 3)])
       [4] [] [] (RNew 4) (RNew 4).
 
+(* user functions may capture handles (lambdaN(f, deps)): the object that owns the function acquires one counted +
+   reported reference on each captured object. [with_keeps t owner first nk]: the captured objects are the arguments
+   number first .. first+nk-1 of the instance *)
+Definition with_keeps (t : tmpl) (owner first nk : nat) : tmpl :=
+  mkT (t_new t) (t_edges t ++ map (fun i => (RNew owner, RNode (first + i))) (seq 0 nk))
+      (t_keep t) (t_ghost t) (t_gclone t) (t_node t) (t_upd t).
+
 Inductive prim :=
 | PSink | PSinkCo | PNever | PCSink | PConst | PMap | PFilter | PFilterOpt | PMerge | PSnapshot | PGate
 | PHold | PValue | PMapC | PLift2 | PAccum | PCollect | PDefer | PSplit | PSLoop | PCLoop.
@@ -195,6 +202,20 @@ Definition tmpl_of (p : prim) (nargs : nat) : tmpl :=
   | PCLoop => t_cloop
   end.
 
+(* which new object holds the user function of the primitive *)
+Definition fun_owner (p : prim) : option nat :=
+  match p with
+  | PMap | PFilter | PMerge | PSnapshot | PMapC => Some 0
+  | PLift2 | PAccum | PCollect => Some 3
+  | _ => None
+  end.
+
+Definition tmpl_with (p : prim) (nargs nkeep : nat) : tmpl :=
+  match fun_owner p with
+  | Some o => with_keeps (tmpl_of p nargs) o nargs nkeep
+  | None => tmpl_of p nargs
+  end.
+
 Definition arity_ok (p : prim) (nargs : nat) : bool :=
   match p with
   | PSink | PSinkCo | PNever | PCSink | PConst | PSLoop | PCLoop => Nat.eqb nargs 0
@@ -205,8 +226,8 @@ Definition arity_ok (p : prim) (nargs : nat) : bool :=
 
 (* ---- operations (one per script line) ---- *)
 Inductive hop :=
-| HDef (h : nat) (p : prim) (args : list nat)
-| HLift (h : nat) (args : list nat)                 (* lift2..lift6: a left-nested chain of lift2 *)
+| HDef (h : nat) (p : prim) (args keeps : list nat)   (* keeps: slots whose handles the user function captures *)
+| HLift (h : nat) (args keeps : list nat)           (* lift2..lift6: a left-nested chain of lift2; the last stage owns the function *)
 | HUpdates (h c : nat)
 | HLoop (l t : nat)                                 (* StreamLoop::loop_ / CellLoop::loop_ *)
 | HListen (l s : nat) (strong : bool)
@@ -257,17 +278,21 @@ Definition drop_slot_ops (s : slot) : list gop := map GDrop (s_h s) ++ map GDrop
 Definition clone_slot_ops (s : slot) : list gop := map GClone (s_h s) ++ map GClone (s_g s).
 
 (* lift over cells c1 c2 c3 ...: lift2 (lift2 c1 c2) c3 ...; the intermediate cells are dropped *)
-Fixpoint lift_chain (st : hstate) (h : nat) (acc : slot) (first : bool) (rest : list slot) : res hstate :=
+Fixpoint lift_chain (st : hstate) (h : nat) (acc : slot) (first : bool) (rest : list slot) (keeps : list slot)
+  : res hstate :=
   match rest with
   | [] => Ok (with_slot st h acc)
   | c :: t =>
     let base := base_of st in
-    match run_ops st (inst_ops t_lift2 [acc; c] base) (t_new t_lift2) with
+    (* the user function lives in the last stage *)
+    let tm := match t with [] => with_keeps t_lift2 3 2 (length keeps) | _ => t_lift2 end in
+    let ar := match t with [] => [acc; c] ++ keeps | _ => [acc; c] end in
+    match run_ops st (inst_ops tm ar base) (t_new tm) with
     | Ok st1 =>
-      let s := inst_slot t_lift2 [acc; c] base in
+      let s := inst_slot tm ar base in
       (* the previous intermediate cell is dropped once the next stage is built *)
       match (if first then Ok st1 else run_ops st1 (drop_slot_ops acc) []) with
-      | Ok st2 => lift_chain st2 h s false t
+      | Ok st2 => lift_chain st2 h s false t keeps
       | r => r
       end
     | r => r
@@ -281,20 +306,20 @@ Definition free_listener (st : hstate) (l : nat) : bool :=
 
 Definition hstep (st : hstate) (op : hop) : res hstate :=
   match op with
-  | HDef h p args =>
-    match lookups (slots st) args with
-    | Some sl =>
+  | HDef h p args keeps =>
+    match lookups (slots st) args, lookups (slots st) keeps with
+    | Some sl, Some kl =>
       if free_slot st h && arity_ok p (length args)
-      then def_slot st h (tmpl_of p (length args)) sl
+      then def_slot st h (tmpl_with p (length args) (length keeps)) (sl ++ kl)
                     (match p with PSLoop | PCLoop => true | _ => false end)
       else Ok st
-    | None => Ok st
+    | _, _ => Ok st
     end
-  | HLift h args =>
-    match lookups (slots st) args with
-    | Some (a :: b :: rest) =>
-      if free_slot st h then lift_chain st h a true (b :: rest) else Ok st
-    | _ => Ok st
+  | HLift h args keeps =>
+    match lookups (slots st) args, lookups (slots st) keeps with
+    | Some (a :: b :: rest), Some kl =>
+      if free_slot st h then lift_chain st h a true (b :: rest) kl else Ok st
+    | _, _ => Ok st
     end
   | HUpdates h c =>
     match lookup (slots st) c with
